@@ -56,7 +56,7 @@ class Cycle:
     """One pipestance directory driven through one or more mrp incarnations."""
 
     def __init__(self, root, workdir, prog, sem, name, vdr="disable", delay_ms=20, faults=None, extra_args=(),
-                 cores=4, mem=4, delays=None):
+                 cores=4, mem=4, delays=None, vmap=None):
         self.root, self.wd, self.name = root, workdir, name
         os.makedirs(workdir, exist_ok=True)
         self.psid = "ps"
@@ -65,7 +65,7 @@ class Cycle:
         self.table = os.path.join(workdir, "table.json")
         self.mro = mro.render(prog, stage_lang="comp")
         open(os.path.join(workdir, "p.mro"), "w").write(self.mro)
-        json.dump({"psdir": self.psdir, "invs": sem["inv"], "faults": faults or {}, "delay_ms": delay_ms, "delays_ms": delays or {}},
+        json.dump({"psdir": self.psdir, "invs": sem["inv"], "faults": faults or {}, "delay_ms": delay_ms, "delays_ms": delays or {}, "vmap_mb": vmap or {}},
                   open(self.table, "w"))
         self.vdr = vdr
         self.extra = list(extra_args)
